@@ -201,13 +201,14 @@ class TRecord(Ty):
 
 
 class Val:
-    __slots__ = ('ty', 't', 'loc', 'fields', 'finite_cond')
+    __slots__ = ('ty', 't', 'loc', 'fields', 'finite_cond', 'np')
 
     def __init__(self, ty, t, loc=None, fields=None):
         self.ty = ty
         self.t = t
         self.loc = loc          # write-back location for in-place mutation (heap path / variable)
         self.finite_cond = None  # numpy division: condition under which all entries are finite numbers
+        self.np = False          # a numpy array (comparisons are elementwise)
         self.fields = fields    # TRecord: dict name -> Val
 
     def __repr__(self):
